@@ -79,7 +79,7 @@ def addLine (a : TAcc) (line : String) : TAcc :=
   | "timeout" :: _ => { a with bad := some (a.n, "TIMEOUT: the scenario did not complete (lost wake-up / deadlock / lost request)") }
   | "overflow" :: _ => { a with bad := some (a.n, "event log overflow (runaway loop)") }
   | "unfilled" :: _ => { a with bad := some (a.n, "event slot never filled") }
-  | "note" :: rest => { a with bad := some (a.n, "unexpected callback/signal: " ++ " ".intercalate rest) }
+  | "note" :: rest => { a with bad := some (a.n, "a notification was delivered that is not the one requested at submission (the sigevent was read after getaddrinfo_a returned, or an unknown cookie/signal): " ++ " ".intercalate rest) }
   | "bad-op" :: _ => { a with bad := some (a.n, "bad-op") }
   | ["lock", "W", "I"] => { a with bad := some (a.n, "a resolver thread locks a second queue mutex (two contexts)") }
   | ["unlock", "W", "I"] => { a with bad := some (a.n, "a resolver thread unlocks a second queue mutex (two contexts)") }
